@@ -370,6 +370,38 @@ func VerifLookupPacing() {
 	verifReach("paced")
 }
 
+// VerifEstablishPacingProbe: a regionserver that accepts connections and drops them at the
+// first request, ATTEMPTS times in a row: the region is re-established with waits on the
+// schedule (first attempt immediate), not in a tight loop.
+func VerifEstablishPacingProbe() {
+	c, e := vCluSetup()
+	var sleeps []time.Duration
+	sleepAndIncreaseBackoffOverride = func(ctx context.Context, b time.Duration) (time.Duration, error) {
+		sleeps = append(sleeps, b)
+		if b == 0 {
+			return backoffStart, nil
+		}
+		return b * 2, nil
+	}
+	e.probeDead = verifParam("ATTEMPTS")
+	reg := vMkRegion(0, 1, nil, nil)
+	c.regions.put(reg)
+	reg.MarkUnavailable()
+	c.establishRegion(reg, "")
+	verifQuiesce()
+	sleepAndIncreaseBackoffOverride = nil
+	verifAssert(!reg.IsUnavailable(), "the region comes online once a connection survives its first request")
+	verifAssert(len(sleeps) == verifParam("ATTEMPTS")+1, "one wait request per attempt")
+	for i, d := range sleeps {
+		if i == 0 {
+			verifAssert(d == 0, "the first attempt is immediate")
+		} else {
+			verifAssert(d == (16*time.Millisecond)<<uint(i-1), "successive attempts are separated by waits on the schedule")
+		}
+	}
+	verifReach("paced")
+}
+
 func vRetryLocate2(c *client, ctx context.Context, rpc hrpc.Call) (hrpc.RegionClient, error) {
 	if ctx.Err() != nil {
 		return nil, ctx.Err()
